@@ -204,8 +204,8 @@ PROPS = {
         "kani": [k for k in K17 if k["harness"] == "k14_ij_to_quaternary_total"],
         "bounded_ops": [
             {"op": "lonlat_to_cell", "budget": 600, "what": "bounded cross-check of the float-layer assumptions on the real code: for "
-             "extreme and random lon/lat x i32 resolutions lonlat_to_cell returns, and an Ok result is a canonical ID of the requested "
-             "resolution"},
+             "extreme and random lon/lat x i32 resolutions, and at / a hair off the 12 face centres, 20 vertices and 30 edge midpoints of "
+             "the frame, lonlat_to_cell returns, and an Ok result is a canonical ID of the requested resolution"},
         ],
         "rlimit": 30,
         "level": "proof",
